@@ -483,12 +483,45 @@ class MapfileTransformer(Transformer):
         v.value = f"NOT {v.value}"
         return v
 
+    def in_matching_parenthesis(self, exp: str) -> bool:
+        """
+        Check if the whole string is enclosed by a single pair of parentheses
+        e.g. "( [a] = 1 )" but not "([a] + 1) * ([b] + 2)"
+        """
+        exp = exp.strip()
+        if not self.quoter.in_parenthesis(exp):
+            return False
+
+        depth = 0
+        quote = None
+        escaped = False
+
+        for idx, c in enumerate(exp):
+            if escaped:
+                escaped = False
+            elif c == "\\":
+                escaped = True
+            elif quote:
+                if c == quote:
+                    quote = None
+            elif c in ('"', "'", "`"):
+                quote = c
+            elif c == "(":
+                depth += 1
+            elif c == ")":
+                depth -= 1
+                if depth == 0 and idx < len(exp) - 1:
+                    # the opening parenthesis is closed before the end of the string
+                    return False
+
+        return True
+
     def expression(self, t):
         exp = " ".join(
             [str(v.value) for v in t]
         )  # convert to string for boolean expressions e.g. (true)
 
-        if not self.quoter.in_parenthesis(exp):
+        if not self.in_matching_parenthesis(exp):
             t[0].value = f"({exp})"
 
         return t[0]
